@@ -944,6 +944,40 @@ func ruleC09Frame(r *Run) {
 			return false
 		})
 		r.Check(rule, FuncName(disp)+"$recover:hook guard", w.InstrPos(h), nonNil, "hook runs only when recover() returned a non-nil value")
+		// ... and whenever it did: no path on which recover() returned a value leaves the closure without calling the hook
+		// (a guard in front of it — "the header is already written" — swallows the panic with the hook never running)
+		{
+			recIn := recs[0].(ssa.Instruction)
+			fps, complete := exploreFrom(recIn, nil, 2000)
+			skipped := !complete
+			for _, fp := range fps {
+				if fp.ret == nil {
+					continue
+				}
+				recovered := false
+				for _, d := range fp.pc.decs {
+					if d.If == nil {
+						continue
+					}
+					if is, pol := nonNilTestP(d.Cond, rv, fp.pc); is && pol == d.Truth {
+						recovered = true
+					}
+				}
+				if !recovered {
+					continue
+				}
+				called := false
+				for _, x := range fp.instrs {
+					if x == h {
+						called = true
+					}
+				}
+				if !called {
+					skipped = true
+				}
+			}
+			r.Check(rule, FuncName(disp)+"$recover:hook on every recovered path", w.InstrPos(h), !skipped, map[bool]string{true: "every path on which recover() returned a value calls the hook before the closure returns", false: "a path on which a panic was recovered returns without calling the hook: the panic is swallowed — contained, but the hook runs zero times instead of exactly once"}[!skipped])
+		}
 		stored := false
 		for _, sc := range callsToFn(cl, setFn) {
 			a := sc.Common().Args
